@@ -525,6 +525,43 @@ fn process_world(ctx: &Ctx, scn: &Scn, pp: &ProcPart, ex: &mut Exec, fp: &mut Fn
             }
         }
     }
+    // the saved factor file states the factor set the first run used (recorded in its JSON document): per key
+    // (carrier, source, use, step) the same sequence of definitions, values at 3 decimals
+    if let (Some(ftext), Some(r1)) = (disk.read(of).and_then(|b| String::from_utf8(b).ok()), disk.read("r1.json").and_then(|b| serde_json::from_slice::<Value>(&b).ok())) {
+        let used: Option<Factors> = r1.get("wfactors").cloned().and_then(|v| serde_json::from_value(v).ok());
+        let saved: Option<Factors> = guard(|| ftext.parse::<Factors>().ok()).ok().flatten();
+        if let (Some(used), Some(saved)) = (used, saved) {
+            let group = |f: &Factors| {
+                let mut m: BTreeMap<String, Vec<[f32; 3]>> = BTreeMap::new();
+                for w in &f.wdata {
+                    m.entry(format!("{}, {}, {}, {}", w.carrier, w.source, w.dest, w.step)).or_default().push([w.ren, w.nren, w.co2]);
+                }
+                m
+            };
+            let (gu, gs) = (group(&used), group(&saved));
+            for (k, vu) in &gu {
+                // the evaluation adds factors of its own (cogenerated electricity) after the file was saved: only keys
+                // that the saved file has are compared (a factor missing from it shows in the re-evaluation)
+                let vs = match gs.get(k) {
+                    Some(v) => v.clone(),
+                    None => continue,
+                };
+                // the definition in force is the first one; whether shadowed repetitions are kept is not prescribed
+                let same = match (vu.first(), vs.first()) {
+                    (Some(a), Some(b)) => (0..3).all(|i| same_f32(printed3(a[i]), b[i]) || (a[i] - b[i]).abs() <= 0.00051),
+                    _ => false,
+                };
+                if !same {
+                    return Some(Violation::new(
+                        "saved_factors_differ",
+                        k.clone(),
+                        format!("{}: the run used the definitions {:?} for `{}` (the first one is in force) but {} states {:?}", what1, vu, k, of, vs),
+                    ));
+                }
+            }
+            ex.count("saved_factor_files_compared_with_the_set_used", 1);
+        }
+    }
     let o2 = run(&Incarnation { argv: argv2.clone(), entropy: pp.entropy2, plan: pp.plan2.clone(), debug_build: false }, ex, fp);
     let what2 = format!("cteepbd {} (reading what `{}` saved)", argv2.join(" "), what1);
     if let Some(v) = crate::props::c16::judge_outcome(&o2, &what2) {
